@@ -52,6 +52,14 @@ Proof.
   replace ((b0 * 256 + b1) / 256) with b0 in H by lia.
   replace ((b0 * 256 + b1) mod 256) with b1 in H by lia. exact H.
 Qed.
+(* AUDIT2: the sweeps run the generated function on a two-element source, where a read beyond it yields 0; the generated
+   function must not depend on anything but halfp[0] and halfp[1] (an over-read would otherwise be invisible) *)
+Lemma bridge_decode_half_window (s s' : Z -> Z) : (forall i, (0 <= i < 2)%Z -> s i = s' i) -> g_cbor_decode_half s = g_cbor_decode_half s'.
+Proof.
+  intros H.
+  first [ unfold g_cbor_decode_half; first [ rewrite !H by lia; reflexivity | reflexivity ]
+        | unfold g_cbor_decode_half, fb_cbor_decode_half; first [ rewrite !H by lia; reflexivity | reflexivity ] ].
+Qed.
 Print Assumptions bridge_decode_half.
 Print Assumptions bridge_decode_half_kind.
 Print Assumptions decode_half_shape_bits.
